@@ -1456,27 +1456,31 @@ static void run_notify(Ctx &c) {
   // descriptors: 0 pipe (read end), 1 socketpair end, 2 regular file (epoll refuses it: EPERM), 3 a descriptor that is closed again
   struct Fds {
     int pfd[2] = {-1, -1}, sp[2] = {-1, -1}, reg = -1, closed = -1;
-    Fds() {
-      if (pipe(pfd)) pfd[0] = pfd[1] = -1;
-      if (socketpair(AF_UNIX, SOCK_STREAM, 0, sp)) sp[0] = sp[1] = -1;
-      reg = memfd_create("vp-c15-notify", 0);  // a regular (shmem) file without poll support, nothing touches the file system
-      closed = dup(pfd[1]);
-      if (closed >= 0) close(closed);
+    // created on first use (most cases touch one or two of them)
+    int get(int k) {
+      switch (k) {
+        case 0: if (pfd[0] < 0 && pipe(pfd)) pfd[0] = pfd[1] = -1; return pfd[0];
+        case 1: if (sp[0] < 0 && socketpair(AF_UNIX, SOCK_STREAM, 0, sp)) sp[0] = sp[1] = -1; return sp[0];
+        case 2: if (reg < 0) reg = memfd_create("vp-c15-notify", 0); return reg;  // a regular (shmem) file without poll support, nothing touches the file system
+        default: if (closed < 0) { closed = dup(2); if (closed >= 0) close(closed); } return closed;
+      }
     }
     ~Fds() { for (int fd : {pfd[0], pfd[1], sp[0], sp[1], reg}) if (fd >= 0) close(fd); }
   } fds;
-  VP_CHECK(c, fds.pfd[0] >= 0 && fds.sp[0] >= 0 && fds.reg >= 0 && fds.closed >= 0, "harness", "could not create descriptors");
-  const int fdof[N] = {fds.pfd[0], fds.sp[0], fds.reg, fds.closed};
+  int fdof[N] = {-1, -1, -1, -1};
   static const char *fdname[N] = {"pipe", "socket", "regular file", "closed descriptor"};
   HInput in[N];
   long held[N];
-  for (int k = 0; k < N; k++) { in[k] = HInput{&vp, 1, 0, k, fdof[k], &viol}; held[k] = 1; }
+  for (int k = 0; k < N; k++) { in[k] = HInput{&vp, 1, 0, k, -1, &viol}; held[k] = 1; }
+  auto need = [&](int k) {
+    if (fdof[k] < 0) { fdof[k] = in[k].fd = fds.get(k); VP_CHECK(c, fdof[k] >= 0, "harness", "could not create a descriptor"); }
+  };
   CObj<notify> no;
   no->_sysfd = -1;  // MPT_NOTIFY_INIT
   bool nontrivial = false;
   auto slot_of = [&](int k) -> HInput * {
     CBuf *b = *(CBuf **)&no->_slot;
-    if (!b || (size_t)fdof[k] >= b->used / sizeof(void *)) return 0;
+    if (!b || fdof[k] < 0 || (size_t)fdof[k] >= b->used / sizeof(void *)) return 0;
     return ((HInput **)b->data())[fdof[k]];
   };
   auto check = [&](const char *op) {
@@ -1507,6 +1511,7 @@ static void run_notify(Ctx &c) {
   check("start");
   while (c.more()) {
     int k = (int)c.pick(N);
+    need(k);
     switch (c.weighted({12, 6, 2, 3})) {
       case 0: {  // hand an input over to the notifier
         if (!held[k]) break;
